@@ -108,6 +108,12 @@ CHECKS = {
         "Trusted base: model.rs accept_reply + sem.rs parse_number (A17). Undocumented spellings (INF/NAN, signed radix digits) are not generated; side effects of rejected replies are not asserted.",
         "6 C17",
     ),
+    "C19": (
+        "fault injection into proptest-generated programs (dangling targets in every referencing form, deleted lines, unmatched WHILE/WEND, token damage, multi-byte text before the fault) with the canonical printer's span table as oracle for error positions; execution gate observed with TRON",
+        "Exploration with an exact positional oracle: the harness knows the character span of every line-number operand and WHILE/WEND keyword in the listed text, so the set of UNDEFINED LINE / WHILE WITHOUT WEND / WEND WITHOUT WHILE diagnostics and LIST's underline ranges must equal the injected faults as multisets; every diagnostic must lie inside its listed line; with TRON on, RUN, RUN n, GOTO n, GOSUB n, IF..THEN n, ON..GOTO/GOSUB n and CONT must not trace or print anything while PRINT 6*7 still works.",
+        "Trusted base: the span table of the canonical printer (guarded by the parse/list guard in C01/C14). With token damage only positional validity and the gate are checked, because the implementation then withholds link-time diagnostics.",
+        "6 C19",
+    ),
     "C20": (
         "metamorphic testing: proptest-generated programs under layout transformations (renumbering, inserted remark/unreachable lines, empty statements, line splitting) must behave identically up to reported line numbers; direct lines independent of the program in memory; direct line vs one-line program",
         "Exploration with a metamorphic oracle: each case runs the original and the transformed program (and a direct line with three different programs in memory) and compares transcripts and final variables exactly after mapping line numbers back; the transformations move the code address of jump targets, WHILE/WEND pairs, DATA and FOR/GOSUB return points without changing meaning.",
